@@ -23,9 +23,10 @@ def _display_name(op, qualify):
 
 
 @native
-def _esc(s):
+def _names_match(want, drawn):
+    """The drawn label is exactly the display name (as written, or HTML-escaped for the table label)."""
     import html
-    return s
+    return drawn in (want, html.escape(want), html.escape(want, quote=False), want.replace("<", "&lt;").replace(">", "&gt;"))
 
 
 def check_drawing(h, cfg, tag):
@@ -42,7 +43,7 @@ def check_drawing(h, cfg, tag):
         if rec is None:
             continue
         want = _display_name(h[n].op, cfg.qualify_op_name)
-        ok_name = ok_name and rec["name"] is not None and want in rec["name"] or (rec["name"] is not None and want.replace("<", "&lt;") in rec["name"])
+        ok_name = ok_name and rec["name"] is not None and _names_match(want, rec["name"])
         ok_ports = ok_ports and rec["in"] == [str(i) for i in range(h.num_in_ports(n))] and rec["out"] == [str(i) for i in range(h.num_out_ports(n))]
         has_kids = len(h.children(n)) > 0
         par = h[n].parent
@@ -82,7 +83,7 @@ def _configs():
 
 
 @lemma("C20", params=lambda: [(i,) for i in range(len(programs.MODULES))],
-       bounds="the 7 builder program templates (order / constant / function / control-flow edges, metadata, nested containers, tracked circuit, "
+       bounds="the 8 builder program templates (order / constant / function / control-flow edges, metadata, nested containers, tracked circuit, "
               "non-ASCII names), one task each; all 3 palettes x both name-qualification settings",
        outside="other programs")
 def drawing_of_builder_programs(k):
